@@ -409,7 +409,7 @@ PEARL_SUMMARIES = [
 # formatting, conversions whose values no obligation inspects)
 DEFAULT_HAVOC = [
     r"^<.* as ToString>::to_string$", r"^<.* as ToOwned>::to_owned$", r"^<.* as From<.*>>::from$", r"^<.* as Into<.*>>::into$",
-    r"^Arguments::", r"^core::fmt::", r"^std::fmt::", r"^log::__private_api::", r"^anyhow::",
+    r"^Arguments::", r"^core::fmt::", r"^std::fmt::", r"^log::__private_api::", r"^anyhow::", r"^<.* as anyhow::kind::\w+>::", r"^(anyhow::)?kind::\w+::",
     r"::with_context$", r"::context$", r"^<.* as Clone>::clone$", r"^<.* as Debug>::fmt$", r"^<.* as Display>::fmt$",
     r"^alloc::fmt::format$", r"^std::fmt::format$", r"^format$", r"^alloc::fmt::format::format_inner$",
     r"^<.* as traits::FilterTrait<K>>::add$", r"^<.* as FilterTrait<.*>>::add$",
